@@ -971,3 +971,79 @@ Section Circuit.
       + symmetry. apply not_true_is_false. intros V. apply Hh in V. discriminate.
   Qed.
 End Circuit.
+
+(* ================================================================ insert_at_position, exactly *)
+Theorem insert_at_position_exact cur sibs pos : length sibs = 3%nat ->
+  (0 <= pos < 4 ->
+   insert_at_position cur sibs pos = Ok (firstn (Z.to_nat pos) sibs ++ cur :: skipn (Z.to_nat pos) sibs)) /\
+  (~ 0 <= pos < 4 -> insert_at_position cur sibs pos = Err 1) /\
+  insert_at_position cur sibs pos <> Err PANIC.
+Proof.
+  intros L. rewrite (insert_at_position_len3 cur sibs pos L). destruct (pos_ok pos) eqn:E.
+  - apply pos_ok_spec in E. split; [intros _; reflexivity|]. split; [intros N; contradiction|discriminate].
+  - split; [intros R; apply pos_ok_spec in R; congruence|]. split; [reflexivity|discriminate].
+Qed.
+Lemma insert_at_position_shapes cur s0 s1 s2 :
+  insert_at_position cur [s0; s1; s2] 0 = Ok [cur; s0; s1; s2] /\
+  insert_at_position cur [s0; s1; s2] 1 = Ok [s0; cur; s1; s2] /\
+  insert_at_position cur [s0; s1; s2] 2 = Ok [s0; s1; cur; s2] /\
+  insert_at_position cur [s0; s1; s2] 3 = Ok [s0; s1; s2; cur].
+Proof. repeat split. Qed.
+
+(* ================================================================ byte-distinct aliases: where the circuit and
+   the native verifier part ways.  The prover's conversion (bytes_to_digest = from_noncanonical_u64) maps a
+   limb v + p to the field element v, so the circuit sees the canonical path while the native verifier
+   rejects the byte string. *)
+Lemma felt_of_canonical d : canonical d -> map felt_of_limb d = d.
+Proof.
+  intros [_ F]. induction F as [|x l Hx F IH]; [reflexivity|]. cbn [map]. rewrite IH. f_equal.
+  unfold felt_of_limb. apply Z.mod_small. exact Hx.
+Qed.
+
+Theorem noncanonical_gap H : hash_wf H ->
+  exists pr, typed_proof pr /\ verify H pr = false /\
+    circuit_accepts_path H (map felt_of_limb (pf_leaf pr)) (map (map (map felt_of_limb)) (pf_siblings pr))
+                         (pf_positions pr) (map felt_of_limb (pf_root pr)) = true.
+Proof.
+  intros Hwf.
+  set (root := H (concat [[0; 0; 0; 0]; [0; 0; 0; 0]; [1; 0; 0; 0]; [2; 0; 0; 0]])).
+  assert (Cr : canonical root) by apply Hwf.
+  assert (C0 : forall a, 0 <= a < 3 -> canonical [a; 0; 0; 0]).
+  { intros a Ha. split; [reflexivity|]. repeat constructor; unfold canon, p; lia. }
+  exists (mkProof [[[p; 0; 0; 0]; [1; 0; 0; 0]; [2; 0; 0; 0]]] [0] [0; 0; 0; 0] root).
+  split; [|split].
+  - constructor; cbn [pf_siblings pf_positions pf_leaf pf_root].
+    + repeat constructor; unfold u64, p, two64; lia.
+    + repeat constructor; lia.
+    + apply canonical_typed, C0; lia.
+    + apply canonical_typed, Cr.
+  - reflexivity.
+  - cbn [pf_siblings pf_positions pf_leaf pf_root map]. rewrite (felt_of_canonical root Cr).
+    change (felt_of_limb p) with 0. change (felt_of_limb 0) with 0. change (felt_of_limb 1) with 1.
+    change (felt_of_limb 2) with 2.
+    set (pr' := mkProof [[[0; 0; 0; 0]; [1; 0; 0; 0]; [2; 0; 0; 0]]] [0] [0; 0; 0; 0] root).
+    assert (T' : typed_proof pr').
+    { constructor; cbn [pr' pf_siblings pf_positions pf_leaf pf_root].
+      - constructor; [|constructor]. apply canonical_level_typed. split; [reflexivity|].
+        constructor; [apply C0; lia|constructor; [apply C0; lia|constructor; [apply C0; lia|constructor]]].
+      - repeat constructor; lia.
+      - apply canonical_typed, C0; lia.
+      - apply canonical_typed, Cr. }
+    assert (Cs' : Forall canonical_level (pf_siblings pr')).
+    { constructor; [|constructor]. split; [reflexivity|]. constructor; [apply C0; lia|constructor; [apply C0; lia|constructor; [apply C0; lia|constructor]]]. }
+    change (circuit_accepts_path H (pf_leaf pr') (pf_siblings pr') (pf_positions pr') (pf_root pr') = true).
+    rewrite (prover_data_iff_native H Hwf pr' T' (C0 0 ltac:(lia)) Cs' Cr).
+    apply (verify_iff H pr' Hwf T'). cbn [pr' pf_siblings pf_positions pf_leaf pf_root].
+    split; [cbn; lia|]. split; [reflexivity|]. split; [apply C0; lia|]. split; [exact Cs'|].
+    split; [repeat constructor; lia|reflexivity].
+Qed.
+
+(* ================================================================ a concrete oracle for the examples *)
+Definition toyH (l : list Z) : list Z :=
+  [fold_right (fun x acc => (x + 3 * acc) mod p) 1 l; fold_right (fun x acc => (2 * x + 5 * acc) mod p) 2 l; 5; 7].
+Lemma toyH_wf : hash_wf toyH.
+Proof.
+  intros l. split; [reflexivity|]. unfold toyH.
+  repeat constructor; unfold canon; try (unfold p; lia);
+    destruct l as [|x l]; cbn [fold_right]; try (unfold p; lia); apply Z.mod_pos_bound; unfold p; lia.
+Qed.
